@@ -202,6 +202,10 @@ func (sm *stateMachine) notifyInSessionTime() {
 }
 
 func (sm *stateMachine) handleDisconnectState(s *session) {
+	// Process what the peer still managed to deliver while the session state allows it,
+	// so that nothing reaches the application after it has been told about the logout.
+	s.drainMessageIn()
+
 	doOnLogout := s.IsLoggedOn()
 
 	switch s.State.(type) {
